@@ -47,3 +47,12 @@ SUITES["C07"] = {"quick": [{"family": "fsm", "mode": "", "share": 1}], "thorough
 PROP_INFO["C08"] = {"level": "exploration", "rule": "seeded neighbour configuration (families, add-path receive/send-max, hold time incl. 0, 4-octet local AS) x seeded received OPEN (hold 0..180, 2-octet-only, no multiprotocol capability, extended message, add-path modes, duplicated and unknown capabilities); after establishment: OPEN sent vs configuration, ListPeer timers, keepalive cadence and hold expiry on the virtual clock, encoding of an advertised route (path ids, AS_TRANS/AS4_PATH), acceptance of ADD-PATH-encoded and 4096/4097/5000-octet UPDATEs. NON-TRIVIAL: at least one negotiation check executed; DISTINCT by (schedule signature, event-log hash).", "probes": ["nego_checked"], "budget": {"quick": 60, "thorough": 1200}}
 SUITES["C08"] = {"quick": [{"family": "fsm", "mode": "nego", "share": 1}], "thorough": [{"family": "fsm", "mode": "nego", "share": 1}]}
 ALL_FAMILIES += [("fsm", ""), ("fsm", "nego")]
+WIRE_RULE = ("catalogue of UPDATE faults written from RFC 7606 s.3/s.5.3/s.7 and RFC 4271 s.6.3 (%d entries: per-attribute bad length / flags / value, duplicate, missing mandatory, "
+             "attribute and total-length overruns, bad withdrawn length, bad NLRI, unknown well-known) applied to valid base UPDATEs whose attribute order is permuted per case, alone and in pairs, "
+             "on eBGP and iBGP sessions with treat-as-withdraw on and off, between valid UPDATEs on a live session with an observer peer. A catalogue CELL is (fault[+fault], session kind, "
+             "taw on/off). NON-TRIVIAL: at least one faulty UPDATE was delivered on an established session; DISTINCT by (schedule signature, event-log hash).") % 31
+PROP_INFO["C06"] = {"level": "fault_enumeration", "rule": WIRE_RULE, "probes": ["fault_treat-as-withdraw", "fault_session-reset", "fault_attribute-discard", "fault_none"], "budget": {"quick": 60, "thorough": 900}}
+SUITES["C06"] = {"quick": [{"family": "wire", "mode": "malformed", "share": 1}], "thorough": [{"family": "wire", "mode": "malformed", "share": 1}]}
+PROP_INFO["C05"] = {"level": "exploration", "rule": "valid messages of every type (KEEPALIVE, ROUTE-REFRESH, withdraw, IPv6 MP_REACH announce, IPv4 announce with a rich attribute set, OPEN) under the options negotiated on the session (ADD-PATH, 2-octet AS, extended message) are damaged in flight (bit flips, byte insertion/deletion, truncation, header length and attribute length rewrites, random bodies and types, oversized claims, cut mid-message) and delivered fragmented; an API client lists and renders (String/JSON/Serialize) every stored path. Oracle: no panic, no hang, and after any damage that does not end the session the next valid UPDATE is parsed in frame. NON-TRIVIAL: at least one damaged message was delivered; DISTINCT by (schedule signature, event-log hash).", "probes": ["survived_mutation", "reset_by_mutation"], "budget": {"quick": 60, "thorough": 900}}
+SUITES["C05"] = {"quick": [{"family": "wire", "mode": "fuzz", "share": 1}], "thorough": [{"family": "wire", "mode": "fuzz", "share": 1}]}
+ALL_FAMILIES += [("wire", "malformed"), ("wire", "fuzz")]
